@@ -57,6 +57,16 @@ class Bin(Node):
         return "Bin(%r %s %r)" % (self.l, self.op, self.r)
 
 
+class RawExpr(Node):
+    """Verbatim expression text; `refs` lists the In/Ref nodes it depends on (for the reference DAG)."""
+
+    def __init__(self, text, refs=()):
+        self.text, self.refs = text, list(refs)
+
+    def __repr__(self):
+        return "RawExpr(%r)" % self.text
+
+
 class Not(Node):
     def __init__(self, e):
         self.e = e
@@ -154,6 +164,8 @@ def expr_str(n):
         return "(%s %s %s)" % (expr_str(n.l), n.op, expr_str(n.r))
     if isinstance(n, Not):
         return "!(%s)" % expr_str(n.e)
+    if isinstance(n, RawExpr):
+        return n.text
     raise TypeError("not an expression node: %r" % (n,))
 
 
@@ -343,4 +355,7 @@ def node_refs(n, out=None):
         node_refs(n.r, out)
     elif isinstance(n, Not):
         node_refs(n.e, out)
+    elif isinstance(n, RawExpr):
+        for r in n.refs:
+            node_refs(r, out)
     return out
